@@ -6,8 +6,9 @@
    SleepContext  [sstep] : LTS of one call from [sinit d deadline now0] — any d, any deadline (or none),
                  cancellation by the environment at any moment, deadline expiry once the clock reaches it.
    JitterTicker  [step]  : LTS from [tinit n] — n goroutines calling NewJitterTicker / Reset / Stop with any
-                 arguments in any interleaving, the AfterFunc callbacks as goroutines, any oracle value of
-                 rand.Int63n, receivers on C.  [sent s] is the ghost list (newest first) of the ticks
+                 arguments in any interleaving, the AfterFunc callbacks as goroutines, any outcome of the
+                 two rand draws of schedule() (magnitude rand.Int63n(jitter), sign bit rand.Int63()&1;
+                 numbered by one oracle value r, [draws]), receivers on C.  [sent s] is the ghost list (newest first) of the ticks
                  (timestamp, d, jitter in force when the sending timer was scheduled) sent on c. *)
 From Juniper Require Import Common.Base Conc.GoLTS Conc.XTime Conc.XTimeProofs.
 
@@ -105,27 +106,91 @@ Proof. exact sleep_runs. Qed.
 (* JitterTicker                                                                        *)
 (* ---------------------------------------------------------------------------------- *)
 
-(* Desired (full) statement:
-     forall n s th d j, reachable step (tinit n) s -> 0 < d -> 0 <= j < d ->
-       NewJitterTicker(d, j) and Reset(d, j) of goroutine th have not panicked in s.
-   It is FALSE for the code in /repo when 2*jitter does not fit in an int64 (jitter >= 2^62 ns, about
-   146 years): int64(t.jitter*2) wraps to a negative number and rand.Int63n panics — see
-   [C20_ticker_no_panic_refuted].  What holds is the statement with the extra hypothesis
-   2*j <= max_i64, for every oracle value of rand.Int63n and every interleaving: *)
-Theorem C20_ticker_no_panic_partial : forall n s th d j,
+(* MAIN (no panic): for ALL d > 0 and ALL jitter with 0 <= jitter < d (no further hypothesis: in particular
+   for every such pair of int64 values, up to d = MaxInt64 and jitter = MaxInt64 - 1), in every reachable state
+   of every scenario, NewJitterTicker(d, jitter) and Reset(d, jitter) of any goroutine th have not panicked -
+   for every outcome of the rand draws and every interleaving.  (The ORIGINAL code, next +=
+   Int63n(int64(jitter*2)) - jitter, violated this for jitter >= 2^62: [C20_ticker_orig_panics_refuted].) *)
+Theorem C20_ticker_no_panic : forall n s th d j,
     reachable step (tinit n) s ->
-    0 < d -> 0 <= j < d -> 2 * j <= max_i64 ->
+    0 < d -> 0 <= j < d ->
     nth_error (thr s) th <> Some (PPanicked (ONew d j))
     /\ nth_error (thr s) th <> Some (PPanicked (OReset d j))
     /\ step s (LRet th (ONew d j) RPanic) = None
     /\ step s (LRet th (OReset d j) RPanic) = None.
 Proof. exact ticker_no_panic. Qed.
 
-Theorem C20_ticker_no_panic_refuted :
+(* ... more precisely: a NewJitterTicker / Reset call panics ONLY for the documented reason (d <= 0 or
+   jitter >= d), and its critical section (set the fields, schedule()) completes normally - and releases
+   nothing, t.m stays with the caller until its Unlock - from every state and for every outcome of the draws *)
+Theorem C20_ticker_panic_only_bad_args : forall n s th o,
+    reachable step (tinit n) s -> nth_error (thr s) th = Some (PPanicked o) ->
+    match o with ONew d j | OReset d j => d <= 0 \/ d <= j | OStop => True end.
+Proof. exact ticker_panic_only_bad_args. Qed.
+
+Theorem C20_ticker_body_completes : forall s th o r s',
+    step s (TBodySched th r) = Some s' -> nth_error (thr s) th = Some (PLocked o) ->
+    nth_error (thr s') th = Some (PUnlock o) /\ mu s' = mu s.
+Proof. exact ticker_body_completes. Qed.
+
+(* the ORIGINAL computation panics (inside rand.Int63n, with t.m held) for the documented pair
+   d = 2^62+1, jitter = 2^62; the code in /repo completes from the same state with the same label *)
+Theorem C20_ticker_orig_panics_refuted :
     0 < huge_d /\ 0 <= huge_j < huge_d /\ huge_d <= max_i64 /\
-    exists s, run step (tinit 1) [LCall 0 (ONew huge_d huge_j); TValidate 0; TLock 0; TBodySched 0 0] = Some s
-              /\ nth_error (thr s) 0 = Some (PPanicked (ONew huge_d huge_j)).
-Proof. exact ticker_no_panic_refuted. Qed.
+    (exists s, run step_orig (tinit 1) [LCall 0 (ONew huge_d huge_j); TValidate 0; TLock 0; TBodySched 0 0] = Some s
+               /\ nth_error (thr s) 0 = Some (PPanicked (ONew huge_d huge_j)) /\ mu s = MDead)
+    /\ (exists s, run step (tinit 1) [LCall 0 (ONew huge_d huge_j); TValidate 0; TLock 0; TBodySched 0 0] = Some s
+                  /\ nth_error (thr s) 0 = Some (PUnlock (ONew huge_d huge_j))
+                  /\ map tm_dl (timers s) = [1]).
+Proof. exact ticker_orig_panics_refuted. Qed.
+
+(* The label of a schedule() step numbers the outcomes of the two draws (m = rand.Int63n(jitter), b = the
+   sign bit) by one integer r: [draws jitter] is a bijection between the valid r (0 <= r < 2*jitter) and the
+   valid pairs (0 <= m < jitter, any b), and outcome r produces the offset r - jitter *)
+Theorem C20_ticker_draws_bijection : forall j,
+    (forall r m b, 0 <= r < 2 * j -> draws j r = (m, b) -> 0 <= m < j)
+    /\ (forall m b, 0 <= m < j -> exists r, 0 <= r < 2 * j /\ draws j r = (m, b))
+    /\ (forall r r', draws j r = draws j r' -> r = r')
+    /\ (forall r m b, 0 < j <= max_i64 -> 0 <= r < 2 * j -> draws j r = (m, b) -> jitter_offset m b = r - j).
+Proof.
+  intros j.
+  exact (conj (fun r m b => draws_valid j r m b)
+        (conj (draws_onto j) (conj (draws_unique j) (fun r m b => draws_offset j r m b)))).
+Qed.
+
+(* MAIN (delay): for ALL documented int64 arguments (0 < d <= MaxInt64, 0 <= jitter < d) and every outcome of
+   the draws, schedule() computes (without panicking) a delay in [d - jitter, MaxInt64]: never negative, never
+   below d - jitter, at most d + jitter; it is exactly d + offset saturated at MaxInt64 *)
+Theorem C20_ticker_delay_documented : forall d j r,
+    0 < d <= max_i64 -> 0 <= j < d -> r_valid VCur j r = true ->
+    exists nx, next_delay VCur d j r = Some nx
+               /\ d - j <= nx <= max_i64 /\ nx <= d + j /\ 0 < nx
+               /\ (0 < j -> nx = Z.min (d + (r - j)) max_i64) /\ (j = 0 -> nx = d).
+Proof. exact ticker_delay_documented. Qed.
+
+(* ... in the state: the timer schedule() creates (it becomes t.timer, with the new generation) is armed for a
+   deadline in [now + d - jitter, now + MaxInt64] *)
+Theorem C20_ticker_schedule_deadline : forall s r s2,
+    schedule VCur s r = Some s2 -> r_valid VCur (fj s) r = true ->
+    0 <= fj s < fd s -> fd s <= max_i64 ->
+    exists tm, tmr s2 = Some (length (timers s)) /\ nth_error (timers s2) (length (timers s)) = Some tm
+               /\ tm_st tm = TArmed /\ tm_gen tm = gen s2
+               /\ now s + (fd s - fj s) <= tm_dl tm <= now s + max_i64.
+Proof. exact ticker_schedule_deadline. Qed.
+
+(* the ORIGINAL computation schedules a NEGATIVE delay for the documented pair d = MaxInt64, jitter = 2^61
+   (rand.Int63n(2^62) = 2^61+1: d + 1 wraps to -2^63): the timer fires at once and two consecutive ticks are
+   2 ns apart (d - jitter is about 219 years); the code in /repo saturates at MaxInt64 for the outcome with
+   the same offset, and the run does not exist in its model *)
+Theorem C20_ticker_orig_spacing_refuted :
+    0 <= p61 < max_i64 /\
+    next_delay VOrig max_i64 p61 (p61 + 1) = Some (- 9223372036854775808)
+    /\ r_valid VOrig p61 (p61 + 1) = true
+    /\ (exists s, run step_orig (tinit 1) orig_ovf_run = Some s
+                  /\ sent s = [(7, max_i64, p61); (5, max_i64, p61)] /\ ~ spaced (sent s))
+    /\ next_delay VCur max_i64 p61 (p61 + 1) = Some max_i64
+    /\ run step (tinit 1) orig_ovf_run = None.
+Proof. exact ticker_orig_spacing_refuted. Qed.
 
 (* the callback goroutine (whose panic would crash the program) never panics, whatever was passed *)
 Theorem C20_ticker_callback_no_panic : forall n s k tm,
@@ -143,14 +208,15 @@ Proof. exact ticker_old_refuted. Qed.
 
 (* MAIN (spacing): in every reachable state the ticks sent so far are spaced: each tick's timestamp is at
    least d - jitter after its predecessor's, with the d and jitter in force when the timer that sent it was
-   scheduled (documented arguments 0 <= jitter < d with d + jitter <= max_i64; see [spaced]) — whatever
-   the timing of Reset and Stop relative to a firing timer, dropped ticks, late timers, oracle values *)
+   scheduled, for ALL documented int64 arguments (0 <= jitter < d <= MaxInt64; see [spaced]: no side condition
+   on d + jitter) — whatever the timing of Reset and Stop relative to a firing timer, dropped ticks, late
+   timers, outcomes of the rand draws *)
 Theorem C20_ticker_spacing : forall n s, reachable step (tinit n) s -> spaced (sent s).
 Proof. exact ticker_spacing. Qed.
 
 Theorem C20_ticker_spacing_adjacent : forall n s t2 d2 j2 t1 d1 j1 pre post,
     reachable step (tinit n) s -> sent s = pre ++ (t2, d2, j2) :: (t1, d1, j1) :: post ->
-    0 <= j2 < d2 -> d2 + j2 <= max_i64 -> d2 - j2 <= t2 - t1.
+    0 <= j2 < d2 -> d2 <= max_i64 -> d2 - j2 <= t2 - t1.
 Proof. exact ticker_spacing_adjacent. Qed.
 
 (* the values received from C (plus the one still buffered) are exactly the ticks sent, in order *)
@@ -185,6 +251,26 @@ Theorem C20_ticker_runs :
               /\ stopped s = true /\ gen s = 5 /\ mu s = MFree /\ length (timers s) = 4%nat.
 Proof. exact ticker_runs. Qed.
 
+(* non-vacuity for huge documented arguments: NewJitterTicker(2^62+1, 2^62) with the smallest offset (delay 1),
+   a tick, a reschedule with the largest offset (saturates), Reset(MaxInt64, 2^61) with offset +1 (saturates),
+   a second tick MaxInt64 ns later; the delays for (MaxInt64, 2^61) and (2^62+1, 2^62) at both ends *)
+Theorem C20_ticker_huge_runs :
+    (exists s, run step (tinit 1) huge_run = Some s
+               /\ sent s = [(1 + max_i64, max_i64, p61); (1, huge_d, huge_j)]
+               /\ map tm_dl (timers s) = [1; 1 + max_i64; 1 + max_i64; 1 + max_i64 + (max_i64 - p61)]
+               /\ map tm_st (timers s) = [TFired; TIdle; TFired; TArmed]
+               /\ mu s = MFree /\ thr s = [PIdle])
+    /\ next_delay VCur max_i64 p61 0 = Some (max_i64 - p61)
+    /\ next_delay VCur max_i64 p61 (p61 + 1) = Some max_i64
+    /\ next_delay VCur max_i64 p61 (2 * p61 - 1) = Some max_i64
+    /\ next_delay VCur max_i64 p61 p61 = Some max_i64
+    /\ next_delay VCur huge_d huge_j 0 = Some 1
+    /\ next_delay VCur huge_d huge_j huge_j = Some huge_d
+    /\ next_delay VCur huge_d huge_j (2 * huge_j - 1) = Some max_i64
+    /\ r_valid VCur huge_j (2 * huge_j - 1) = true /\ r_valid VCur huge_j (2 * huge_j) = false
+    /\ r_valid VCur p61 (2 * p61 - 1) = true /\ r_valid VCur 0 0 = true /\ r_valid VCur 0 1 = false.
+Proof. exact ticker_huge_runs. Qed.
+
 Print Assumptions C20_sleep_decision_function.
 Print Assumptions C20_sleep_at_once.
 Print Assumptions C20_sleep_decision.
@@ -192,8 +278,14 @@ Print Assumptions C20_sleep_waiting_timer.
 Print Assumptions C20_sleep_progress.
 Print Assumptions C20_sleep_old_refuted.
 Print Assumptions C20_sleep_runs.
-Print Assumptions C20_ticker_no_panic_partial.
-Print Assumptions C20_ticker_no_panic_refuted.
+Print Assumptions C20_ticker_no_panic.
+Print Assumptions C20_ticker_panic_only_bad_args.
+Print Assumptions C20_ticker_body_completes.
+Print Assumptions C20_ticker_orig_panics_refuted.
+Print Assumptions C20_ticker_draws_bijection.
+Print Assumptions C20_ticker_delay_documented.
+Print Assumptions C20_ticker_schedule_deadline.
+Print Assumptions C20_ticker_orig_spacing_refuted.
 Print Assumptions C20_ticker_callback_no_panic.
 Print Assumptions C20_ticker_old_refuted.
 Print Assumptions C20_ticker_spacing.
@@ -202,9 +294,11 @@ Print Assumptions C20_ticker_received_are_sent.
 Print Assumptions C20_no_tick_after_stop.
 Print Assumptions C20_stop_return_follows_body.
 Print Assumptions C20_ticker_runs.
+Print Assumptions C20_ticker_huge_runs.
 
 (* ---- the correspondence check's history matchers are certified (Conc/XTimeMatcher.v): the sleep matcher is
-        sound and complete under convergence; the tick-guided ticker matcher is sound w.r.t. the unreduced model ---- *)
+        sound and complete under convergence; the tick-guided ticker matcher is sound w.r.t. the unreduced model, and
+        fixing the outcome of the rand draws to 0 loses no history for int64 arguments ---- *)
 From Juniper Require Conc.GoLTS Conc.XTime Conc.XTimeMatcher.
 
 Theorem C20_sleep_matcher_sound : forall d dl evs,
@@ -222,9 +316,26 @@ Theorem C20_ticker_matcher_sound : forall n evs,
     exists ls s, GoLTS.run XTime.step (XTime.tinit n) ls = Some s /\ XTimeMatcher.ticker_trace ls = evs.
 Proof. exact XTimeMatcher.ticker_check_sound. Qed.
 
+(* the matcher tries only outcome 0 of the rand draws (smallest offset): for ALL documented int64 arguments that
+   is the earliest deadline (no side condition on d + jitter any more), so every run of the model has a
+   counterpart with the same visible trace in which every outcome is 0 *)
+Theorem C20_ticker_oracle_safe_documented : forall d j,
+    0 <= j < d -> d <= XTime.max_i64 -> XTimeMatcher.oracle_safe d j.
+Proof. exact XTimeMatcher.oracle_safe_documented. Qed.
+
+Theorem C20_ticker_matcher_oracle_zero : forall n evs ls s,
+    XTimeMatcher.hist_safe evs -> GoLTS.run XTime.step (XTime.tinit n) ls = Some s ->
+    XTimeMatcher.ticker_trace ls = evs ->
+    exists ls0 s0, GoLTS.run XTime.step (XTime.tinit n) ls0 = Some s0
+                   /\ Forall (fun l => XTimeMatcher.zero_oracle l = true) ls0
+                   /\ XTimeMatcher.ticker_trace ls0 = evs /\ XTimeMatcher.earlier s0 s.
+Proof. exact XTimeMatcher.ticker_oracle_zero. Qed.
+
 Print Assumptions C20_sleep_matcher_sound.
 Print Assumptions C20_sleep_matcher_rejections_genuine.
 Print Assumptions C20_ticker_matcher_sound.
+Print Assumptions C20_ticker_oracle_safe_documented.
+Print Assumptions C20_ticker_matcher_oracle_zero.
 
 (* Tie to the source: the Go functions the model transcribes still contain exactly the synchronisation operations
    (select arms, channel operations, goroutine starts, timer/context/sync calls) the model accounts for.
